@@ -21,7 +21,10 @@ Sets == <<
   [id |-> 7, words |-> {"a", "b", "c"}, syms |-> {"-", "+"}, names |-> {B("a", 2), B("b", 3), B("c", 5), B("a-b", 7), B("a-b-c-a", 37), B("a-b-c", 41)},
      extra |-> {<<"a", "-", "b", "-", "c", "-", "a">>, <<"a", "-", "b", "-", "c", "-", "a", "+", "1">>, <<"1", "+", "a", "-", "b", "-", "c", "-", "a">>,
                 <<"a", "-", "b", "-", "c", "-", "a", "-", "b">>, <<"a", "-", "b", "-", "c", "-", "b">>}],
-  [id |-> 8, words |-> {"Zolc", "b"}, syms |-> {"-", "*"}, names |-> {B("Zolc", 2), B("b", 3), B("Zolc-b", 7), B("b Zolc", 11)}, extra |-> {}]
+  [id |-> 8, words |-> {"Zolc", "b"}, syms |-> {"-", "*"}, names |-> {B("Zolc", 2), B("b", 3), B("Zolc-b", 7), B("b Zolc", 11)}, extra |-> {}],
+  \* names whose first word also spells a built-in type or a word of a built-in function's name (none is a keyword)
+  [id |-> 9, words |-> {"number", "sold", "b"}, syms |-> {"-", "+"}, names |-> {B("number sold", 7), B("b", 3), B("sold", 5)}, extra |-> {}],
+  [id |-> 10, words |-> {"time", "limit", "string"}, syms |-> {"-", "*"}, names |-> {B("time limit", 7), B("string", 3), B("limit", 5), B("string time", 11)}, extra |-> {}]
 >>
 
 Alphabet(s) == s.words \cup s.syms \cup {"1"}
